@@ -95,6 +95,10 @@ func (t *StandardRoundTimer) background(ctx context.Context) {
 
 	var timerElapsed, cancelTimer chan struct{}
 
+	// State shared with the cancel function of the running timer,
+	// so that a cancelled timer can never be reported as elapsed after cancel returned.
+	var cur *timerState
+
 	// A start request that arrived while the previous, already cancelled, timer
 	// had not yet been cleaned up.
 	var pending *startTimerRequest
@@ -121,18 +125,23 @@ func (t *StandardRoundTimer) background(ctx context.Context) {
 
 		timerElapsed = make(chan struct{})
 		cancelTimer = make(chan struct{})
-		// Local reference so the returned cancel function
-		// doesn't have a closure over the outer variable.
+		cur = new(timerState)
+		// Local references so the returned cancel function
+		// doesn't have a closure over the outer variables.
 		localCancel := cancelTimer
-		var cancelOnce sync.Once
+		localState := cur
 		// The caller should be blocking on the receive here,
 		// so we should be safe to do a blocking send.
 		req.Resp <- startTimerResponse{
 			Elapsed: timerElapsed,
 			Cancel: func() {
-				cancelOnce.Do(func() {
-					close(localCancel)
-				})
+				localState.mu.Lock()
+				defer localState.mu.Unlock()
+				if localState.cancelled || localState.elapsed {
+					return
+				}
+				localState.cancelled = true
+				close(localCancel)
 			},
 		}
 
@@ -142,8 +151,13 @@ func (t *StandardRoundTimer) background(ctx context.Context) {
 			return
 
 		case <-timer.C:
-			// The timer elapsed.
-			close(timerElapsed)
+			// The timer elapsed, unless it was cancelled at the same moment.
+			cur.mu.Lock()
+			if !cur.cancelled {
+				cur.elapsed = true
+				close(timerElapsed)
+			}
+			cur.mu.Unlock()
 			timerElapsed = nil
 			cancelTimer = nil
 
@@ -191,6 +205,13 @@ func (t *StandardRoundTimer) background(ctx context.Context) {
 			pending = &next
 		}
 	}
+}
+
+// timerState is the state of one started timer,
+// shared between the timer goroutine and that timer's cancel function.
+type timerState struct {
+	mu                 sync.Mutex
+	cancelled, elapsed bool
 }
 
 func (t *StandardRoundTimer) getTimer(ctx context.Context, dur time.Duration) (<-chan struct{}, func()) {
